@@ -479,8 +479,21 @@ impl C20 {
                     _ => 3,
                 };
                 let voters: Vec<String> = idx.iter().take(nvoters).map(|i| a[*i].clone()).collect();
+                // voters of a group-backed multisig may carry no weight: half of the flex voter listings sit on a group
+                // two thirds of whose members are weightless (in random key positions)
+                let weightless = flex && what == "ListVoters" && h.idx % 2 == 1;
+                if weightless {
+                    h.out.count("flex_voter_listings_with_weightless_members");
+                }
+                let wt = move |i: usize| -> u64 {
+                    if weightless && i > 0 && i % 3 != 2 {
+                        0
+                    } else {
+                        1 + i as u64 % 4
+                    }
+                };
                 let ms = if flex {
-                    let g = match c.instantiate(c.codes.group, &owner, &cw4_group::msg::InstantiateMsg { admin: None, members: voters.iter().enumerate().map(|(i, x)| Member { addr: x.clone(), weight: 1 + i as u64 % 4 }).collect() }, "g", None) {
+                    let g = match c.instantiate(c.codes.group, &owner, &cw4_group::msg::InstantiateMsg { admin: None, members: voters.iter().enumerate().map(|(i, x)| Member { addr: x.clone(), weight: wt(i) }).collect() }, "g", None) {
                         Res::Ok(x) => x,
                         _ => return false,
                     };
@@ -568,7 +581,7 @@ impl C20 {
                     }
                     _ => {
                         let cc = &c;
-                        let expected: Vec<(String, String)> = voters.iter().enumerate().map(|(i, x)| (x.clone(), (1 + i as u64 % 4).to_string())).collect();
+                        let expected: Vec<(String, String)> = voters.iter().enumerate().map(|(i, x)| (x.clone(), wt(i).to_string())).collect();
                         check_listing(
                             h,
                             name,
@@ -747,6 +760,7 @@ impl Monitor for C20 {
             "listing_flex.ReverseProposals",
             "listing_flex.ListVotes",
             "listing_flex.ListVoters",
+            "flex_voter_listings_with_weightless_members",
             "listing_group.ListMembers",
             "listing_stake.ListMembers",
             "listing_ics20.ListAllowed",
